@@ -12,6 +12,7 @@ import (
 	"context"
 	"encoding/json"
 	"fmt"
+	"sort"
 	"strings"
 	"testing"
 
@@ -23,7 +24,7 @@ import (
 )
 
 type C13Op struct {
-	Kind string `json:"kind"` // put get start stop abort lang
+	Kind string `json:"kind"` // put get start stop abort lang dump
 	Key  string `json:"key,omitempty"`
 	Lang string `json:"lang,omitempty"`
 }
@@ -34,6 +35,8 @@ type C13Case struct {
 	// Translated: work on a translatable type with a language set, so that Put writes the
 	// translation entry and Get issues two queries (translation, then default)
 	Translated bool `json:"translated,omitempty"`
+	// Lenient: a failed statement leaves its transaction usable instead of aborted
+	Lenient bool `json:"lenient,omitempty"`
 }
 
 func (c C13Case) String() string {
@@ -43,9 +46,12 @@ func (c C13Case) String() string {
 		if op.Key != "" {
 			x += " " + op.Key
 		}
+		if op.Kind == "lang" {
+			x += " " + map[bool]string{true: "-", false: op.Lang}[op.Lang == ""]
+		}
 		s = append(s, x)
 	}
-	return fmt.Sprintf("[%s] faults=%v translated=%v", strings.Join(s, "; "), c.Faults, c.Translated)
+	return fmt.Sprintf("[%s] faults=%v translated=%v lenient=%v", strings.Join(s, "; "), c.Faults, c.Translated, c.Lenient)
 }
 
 type c13Ref struct {
@@ -62,6 +68,7 @@ type c13Result struct {
 	prims      int // primitive calls made in total
 	afterFault int // operations executed after the last fault fired
 	multiPuts  int // writes inside explicit transactions
+	dumps      int
 	faultFired int
 	tolerated  []string
 }
@@ -70,15 +77,26 @@ func runC13(c C13Case) (res c13Result) {
 	ctx := context.Background()
 	srv := pgfake.NewServer()
 	srv.SetFaults(c.Faults)
+	srv.Lenient = c.Lenient
 	store := postgres.NewPgDb().WithConnection(srv.Conn())
 	store.SetPrefix(db.DATATYPE_USERDATA)
 	store.SetSession("s")
-	userKey := func(k string) []byte { return append([]byte{db.DATATYPE_USERDATA}, []byte("s."+k)...) }
+	// the reference works on storage names: the key itself or, on a translatable type with
+	// a language in effect, key_<lang> with a fall back to the key itself when reading
+	userKey := func(name string) []byte { return append([]byte{db.DATATYPE_USERDATA}, []byte("s."+name)...) }
+	curLang := ""
 	if c.Translated {
 		store.SetLock(db.DATATYPE_TEMPLATE, false)
 		store.SetPrefix(db.DATATYPE_TEMPLATE)
 		store.SetLanguage(langPtr("nor"))
-		userKey = func(k string) []byte { return append([]byte{db.DATATYPE_TEMPLATE}, []byte(k+"_nor")...) }
+		curLang = "nor"
+		userKey = func(name string) []byte { return append([]byte{db.DATATYPE_TEMPLATE}, []byte(name)...) }
+	}
+	names := func(k string) (primary, fallback string) {
+		if c.Translated && curLang != "" {
+			return k + "_" + curLang, k
+		}
+		return k, ""
 	}
 	ref := &c13Ref{vals: map[string][]byte{}, free: map[string]bool{}, pending: map[string][]byte{}}
 	fail := func(i int, op C13Op, kind, format string, a ...any) c13Result {
@@ -102,9 +120,44 @@ func runC13(c C13Case) (res c13Result) {
 		logBefore := srv.LogLen()
 		var err error
 		var got []byte
+		var dumped map[string][]byte
+		dumpLog := -1 // length of the driver log when Dump itself returned
 		val := []byte(fmt.Sprintf("v%d", i))
 		p := catchPanic(func() {
 			switch op.Kind {
+			case "lang":
+				curLang = op.Lang
+				if c.Translated {
+					if op.Lang == "" {
+						store.SetLanguage(nil)
+					} else {
+						store.SetLanguage(langPtr(op.Lang))
+					}
+				}
+			case "dump":
+				var d *db.Dumper
+				d, err = store.Dump(ctx, []byte(op.Key))
+				dumpLog = srv.LogLen()
+				if err == nil && d != nil {
+					dumped = map[string][]byte{}
+					for n := 0; n < 100; n++ {
+						k, v := d.Next(ctx)
+						if k == nil {
+							break
+						}
+						dumped[string(k)] = v
+					}
+					d.Close()
+				}
+				// Dump clears the language of the handle; that side effect is none of this
+				// property's business, the language in effect is put back
+				if c.Translated {
+					if curLang == "" {
+						store.SetLanguage(nil)
+					} else {
+						store.SetLanguage(langPtr(curLang))
+					}
+				}
 			case "put":
 				err = store.Put(ctx, []byte(op.Key), val)
 			case "get":
@@ -128,10 +181,15 @@ func runC13(c C13Case) (res c13Result) {
 			return
 		}
 		// did an injected fault fire during this operation?
-		faulted := false
-		for _, ev := range srv.LogSince(logBefore) {
+		faulted, faultedInCall := false, false
+		for j, ev := range srv.LogSince(logBefore) {
 			if ev.Note == "injected" {
 				faulted = true
+				// a Dumper's Next has no way to report an error: only the Dump call itself is
+				// held to "reports an error"
+				if dumpLog < 0 || logBefore+j < dumpLog {
+					faultedInCall = true
+				}
 			}
 		}
 		if faulted {
@@ -139,7 +197,16 @@ func runC13(c C13Case) (res c13Result) {
 			lastFaultOp = i
 			ref.faultSeen = true
 			// (1) the operation reports the error
-			if err == nil && op.Kind != "abort" && op.Kind != "close" {
+			if err == nil && faultedInCall && op.Kind != "abort" && op.Kind != "close" {
+				if op.Kind == "dump" {
+					r := fail(i, op, "fault-swallowed", "a driver call failed during Dump but it returned no error")
+					for _, ev := range srv.LogSince(logBefore) {
+						if ev.Note == "injected" {
+							r.viol.Detail = "dump-" + ev.Op
+						}
+					}
+					return r
+				}
 				return fail(i, op, "fault-swallowed", "a driver call failed during the operation but it returned no error (got %q)", got)
 			}
 		}
@@ -171,7 +238,16 @@ func runC13(c C13Case) (res c13Result) {
 		}
 		_ = primBefore
 		// reference semantics
-		key := op.Key
+		key, fallback := names(op.Key)
+		if op.Kind == "get" && fallback != "" && !ref.free[key] {
+			if _, ok := ref.vals[key]; !ok {
+				// no translation entry: the default entry answers
+				key = fallback
+			}
+		}
+		if op.Kind == "dump" {
+			res.dumps++
+		}
 		// an explicit transaction in which any operation failed promises nothing about
 		// its writes any more
 		if ref.explicit && err != nil && (op.Kind == "put" || op.Kind == "get" || op.Kind == "start") {
@@ -240,6 +316,39 @@ func runC13(c C13Case) (res c13Result) {
 				}
 				if !db.IsNotFound(err) && !faulted && i > lastFaultOp && wedgeFree(ref) {
 					return fail(i, op, "wedged", "Get of a missing key fails with %q long after the fault instead of not-found", err)
+				}
+			}
+		case "dump":
+			if ref.explicit && err != nil {
+				// Dump works in a transaction of its own; its failure says nothing about the
+				// explicit one, which must go on (checked by the operations that follow)
+			}
+			if faulted || ref.faultSeen && i <= lastFaultOp {
+				break
+			}
+			n := 0
+			for name, want := range ref.vals {
+				if ref.free[name] || !strings.HasPrefix(name, op.Key) {
+					continue
+				}
+				if _, pend := ref.pending[name]; pend && ref.explicit {
+					continue // uncommitted: the dump's own transaction need not see it
+				}
+				n++
+				if err != nil {
+					return stickyFail(fail(i, op, "acknowledged-write-lost", "Dump failed (%v) although the acknowledged write %s=%q is in its range", err, name, want), name)
+				}
+				if gv, ok := dumped[name]; !ok || !bytes.Equal(gv, want) {
+					return stickyFail(fail(i, op, "wrong-value", "Dump lists %s=%q (present %v), the acknowledged value is %q (all: %v)", name, gv, ok, want, fmtDump(dumped)), name)
+				}
+			}
+			if n == 0 && err == nil {
+				for name, gv := range dumped {
+					if _, ok := ref.vals[name]; !ok && !ref.free[name] && !ref.explicit {
+						if _, pend := ref.pending[name]; !pend {
+							return fail(i, op, "unacknowledged-visible", "Dump lists %s=%q, a key with no acknowledged write", name, gv)
+						}
+					}
 				}
 			}
 		case "start":
@@ -342,10 +451,28 @@ func runC13(c C13Case) (res c13Result) {
 
 func wedgeFree(ref *c13Ref) bool { return true }
 
+func fmtDump(m map[string][]byte) string {
+	var ks []string
+	for k := range m {
+		ks = append(ks, k)
+	}
+	sort.Strings(ks)
+	var sb strings.Builder
+	for _, k := range ks {
+		fmt.Fprintf(&sb, "%s=%q ", k, m[k])
+	}
+	return sb.String()
+}
+
 func checkC13(c C13Case) (o Outcome) {
 	for _, op := range c.Ops {
 		switch op.Kind {
-		case "put", "get", "start", "stop", "abort":
+		case "put", "get", "start", "stop", "abort", "dump":
+		case "lang":
+			if op.Lang != "" && op.Lang != "nor" && op.Lang != "eng" {
+				o.Discard = "unknown-language"
+				return
+			}
 		default:
 			o.Discard = "unknown-op"
 			return
@@ -355,6 +482,15 @@ func checkC13(c C13Case) (o Outcome) {
 	o.Viol = r.viol
 	o.Tolerated = r.tolerated
 	o.NonTrivial = (r.faultFired > 0 && r.afterFault >= 2) || r.multiPuts >= 2
+	if r.dumps > 0 {
+		o.class("with-dump")
+	}
+	if c.Translated {
+		o.class("translated")
+	}
+	if c.Lenient && r.faultFired > 0 {
+		o.class("lenient-fault")
+	}
 	if r.faultFired > 0 {
 		o.class("fault-fired:%d", min(r.faultFired, 2))
 	} else if len(c.Faults) > 0 {
@@ -367,6 +503,8 @@ func checkC13(c C13Case) (o Outcome) {
 
 var c13Alphabet = []C13Op{{Kind: "put", Key: "k1"}, {Kind: "put", Key: "k2"}, {Kind: "get", Key: "k1"}, {Kind: "get", Key: "k2"}, {Kind: "start"}, {Kind: "stop"}, {Kind: "abort"}}
 
+var c13AlphabetTr = []C13Op{{Kind: "put", Key: "k1"}, {Kind: "get", Key: "k1"}, {Kind: "lang", Lang: "nor"}, {Kind: "lang", Lang: ""}, {Kind: "dump", Key: "k"}, {Kind: "start"}, {Kind: "stop"}}
+
 var genC13Op = rapid.Custom(func(t *rapid.T) C13Op {
 	switch k := uniformN(t, 20, "kind"); {
 	case k < 7:
@@ -377,12 +515,16 @@ var genC13Op = rapid.Custom(func(t *rapid.T) C13Op {
 		return C13Op{Kind: "start"}
 	case k < 17:
 		return C13Op{Kind: "stop"}
+	case k < 18:
+		return C13Op{Kind: "dump", Key: []string{"k", "k1", "k2"}[uniformN(t, 3, "dumpkey")]}
+	case k < 19:
+		return C13Op{Kind: "lang", Lang: []string{"", "nor", "eng"}[uniformN(t, 3, "lang")]}
 	}
 	return C13Op{Kind: "abort"}
 })
 
 func genC13(t *rapid.T) C13Case {
-	c := C13Case{Ops: genSlice(t, genC13Op, 1, 25, "ops"), Translated: chancePct(t, 30, "translated")}
+	c := C13Case{Ops: genSlice(t, genC13Op, 1, 25, "ops"), Translated: chancePct(t, 30, "translated"), Lenient: chancePct(t, 30, "lenient")}
 	nf := uniformN(t, 3, "nfaults")
 	// roughly three primitive calls per operation
 	for i := 0; i < nf; i++ {
@@ -402,6 +544,7 @@ func init() {
 }
 
 var _ = registerReplay("C13", "enum", checkC13)
+var _ = registerReplay("C13", "enum-tr", checkC13)
 var _ = registerReplay("C13", "rand", checkC13)
 
 func TestC13(t *testing.T) {
@@ -411,26 +554,29 @@ func TestC13(t *testing.T) {
 		maxLen, pairs, pairLen = 5, true, 4
 	}
 	idx, n := shardInfo()
-	RunEnum(t, "C13", "enum", true, fmt.Sprintf("every sequence of 1..%d operations over {Put k1, Put k2, Get k1, Get k2, Start, Stop, Abort} (+ final Close) x no fault, every single failing primitive call%s; split over shards", maxLen, map[bool]string{true: fmt.Sprintf(" and, for sequences up to length %d, every pair", pairLen), false: ""}[pairs]),
-		func(yield func(C13Case) bool) {
+	enum := func(alphabet []C13Op, translated bool, maxLen int, pairs bool, pairLen int) func(yield func(C13Case) bool) {
+		return func(yield func(C13Case) bool) {
 			k := 0
 			var rec func(prefix []C13Op) bool
 			rec = func(prefix []C13Op) bool {
 				if len(prefix) > 0 {
 					k++
 					if k%n == idx {
-						base := C13Case{Ops: append([]C13Op{}, prefix...)}
+						base := C13Case{Ops: append([]C13Op{}, prefix...), Translated: translated}
 						if !yield(base) {
 							return false
 						}
 						p := runC13(base).prims
 						for f := 1; f <= p+1; f++ {
-							if !yield(C13Case{Ops: base.Ops, Faults: []int{f}}) {
+							if !yield(C13Case{Ops: base.Ops, Faults: []int{f}, Translated: translated}) {
+								return false
+							}
+							if !yield(C13Case{Ops: base.Ops, Faults: []int{f}, Translated: translated, Lenient: true}) {
 								return false
 							}
 							if pairs && len(base.Ops) <= pairLen {
 								for g := f + 1; g <= p+2; g++ {
-									if !yield(C13Case{Ops: base.Ops, Faults: []int{f, g}}) {
+									if !yield(C13Case{Ops: base.Ops, Faults: []int{f, g}, Translated: translated}) {
 										return false
 									}
 								}
@@ -441,7 +587,7 @@ func TestC13(t *testing.T) {
 				if len(prefix) == maxLen {
 					return true
 				}
-				for _, op := range c13Alphabet {
+				for _, op := range alphabet {
 					if !rec(append(append([]C13Op{}, prefix...), op)) {
 						return false
 					}
@@ -449,7 +595,16 @@ func TestC13(t *testing.T) {
 				return true
 			}
 			rec(nil)
-		}, checkC13)
+		}
+	}
+	pairsText := map[bool]string{true: fmt.Sprintf(" and, for sequences up to length %d, every pair", pairLen), false: ""}[pairs]
+	RunEnum(t, "C13", "enum", true, fmt.Sprintf("every sequence of 1..%d operations over {Put k1, Put k2, Get k1, Get k2, Start, Stop, Abort} (+ final Close) x no fault, every single failing primitive call%s; split over shards", maxLen, pairsText),
+		enum(c13Alphabet, false, maxLen, pairs, pairLen), checkC13)
+	if t.Failed() {
+		return
+	}
+	RunEnum(t, "C13", "enum-tr", true, fmt.Sprintf("translatable data type with language switches and Dump: every sequence of 1..%d operations over {Put k1, Get k1, Lang nor, Lang -, Dump k, Start, Stop} (+ final Close), handle starting in language nor, x no fault, every single failing primitive call%s; split over shards", maxLen+1, pairsText),
+		enum(c13AlphabetTr, true, maxLen+1, pairs, pairLen), checkC13)
 	if t.Failed() {
 		return
 	}
